@@ -36,6 +36,15 @@ CHECKS = {
     },
 }
 
+for _pid, _floor in (("C18", 1000), ("C19", 1000), ("C20", 1000)):
+    CHECKS[_pid] = {
+        "harness": _pid.lower(),
+        "level": "exploration",
+        "floor": {"quick": _floor, "thorough": _floor},
+        "timeout": {"quick": 1500, "thorough": 7200},
+        "assumptions": [],
+    }
+
 
 def build(pid, spec):
     """Build (or fetch from the cache) the harness binary for a property."""
